@@ -137,7 +137,9 @@ def make_def(rng, mode):
     digits = len(ident) + rng.choice([0, 0, 1, 3])
     if mode == "delim":
         ident = ident or "ID"
-        digits = len(ident) + rng.choice([0, 2])
+        # identifier windows much wider than the identifier: a delimited line may then be
+        # shorter than the window itself
+        digits = len(ident) + rng.choice([0, 2, 2, 6, 12, 24])
     fields, pos = [], digits
     for _ in range(rng.randrange(1, 5)):
         if mode == "bin":
